@@ -16,9 +16,9 @@ type GenOpts struct {
 	MaxSpan    int  // cap on last-first (0 = default mix incl. 1..255)
 	SmallTimes bool // only cheap timings
 	NoSilent   bool
-	OwnWindow  bool // serial: every reply arrives inside its own window (C02's quantifier)
+	OwnWindow  bool   // serial: every reply arrives inside its own window (C02's quantifier)
 	StrictMode string // "" both | strict | relaxed
-	BigDelay   bool // send delay >= 2*poll configurations (C05)
+	BigDelay   bool   // send delay >= 2*poll configurations (C05)
 }
 
 func oneOf[T any](t *rapid.T, label string, xs ...T) T {
@@ -197,6 +197,7 @@ func GenScenario(t *rapid.T, o GenOpts) *Scenario {
 		}
 		if o.Forms {
 			h.Form = genForm(t, kind, v6, relaxed)
+			h.LinkPad = oneOf(t, label+"_linkpad", false, false, true)
 		}
 		if o.Dups && oneOf(t, label+"_dup", false, false, true) {
 			n := rapid.IntRange(1, 3).Draw(t, label+"_ndup")
